@@ -54,6 +54,11 @@ def parseEvent (l : Line) : Option FlowObs.Event :=
   | "authorize" =>
     if str l "obs" == "login" then
       let ch : Option CodeChallenge := if has l "chal.m" then some { Challenge := str l "chal.c", Method := str l "chal.m" } else none
+      -- round 4c (C04): a request with a signed request object: the line says what travelled in the query and in the object; the challenge
+      -- the request CARRIED is decided from that (C04.effectiveChallenge); the request was accepted, so was the object
+      let ch := if has l "ro" then
+          C04.effectiveChallenge true { challenge := str l "q.cc", method := str l "q.ccm" } { challenge := str l "ro.cc", method := str l "ro.ccm" }
+        else ch
       some (.accepted { id := str l "o.id", clientID := str l "client", redirectURI := str l "redirect", scopes := list l "scopes",
                         nonce := str l "nonce", state := str l "state", challenge := ch,
                         subject := str l "o.presub" })
